@@ -32,7 +32,7 @@ from edgegraph.builder import adjlist, adjmatrix
 from .. import engine_h, battery
 from ..fixtures_mod import NB_FILTERS, DIRS, UNKS
 from ..report import Report, HarnessError
-from ..structure import Alphabet, SWorld, apply_op, canon_world, observe, shape, inv_links, memo_is_warm
+from ..structure import Alphabet, Pumped, SWorld, apply_op, canon_world, observe, shape, inv_links, memo_is_warm
 
 PROP = "C05"
 
@@ -54,6 +54,14 @@ POOLS = {
     ],
 }
 KEYSETS = {"quick": battery.KEYS_QUICK, "full": battery.KEYS_FULL}
+# the first K of these keys are asked one after the other by the op ("queryseq", vertex, K)
+LADDER_KEYS = [(d, u, f) for f in ("none", "selv", "accept") for u in ("NBR", "NON") for d in ("FWD", "ANY", "BWD")][:12]
+# pumped pools: hub with n links, caching ON from the start; every history of <= depth ops made of
+# "ask the first K keys at the hub / the last spoke" (K = 1..12) and the focused mutators
+PUMPED = {
+    "quick": dict(ns=[0, 1, 2, 3, 4, 6, 8, 9, 12], depth=2),
+    "thorough": dict(ns=list(range(0, 13)) + [16, 17, 32, 33], depth=3),
+}
 
 
 def all_universe(w):
@@ -63,13 +71,31 @@ def all_universe(w):
 class Sys:
     def __init__(self, spec):
         self.spec = spec
-        self.alpha = Alphabet(**spec["alpha"])
-        self.keys = KEYSETS[spec["keys"]]
+        if "pumped" in spec:
+            self.alpha = Pumped(spec["pumped"], extra_links=1)
+            self.keys = LADDER_KEYS
+        else:
+            self.alpha = Alphabet(**spec["alpha"])
+            self.keys = KEYSETS[spec["keys"]]
 
     def initial(self):
+        if "pumped" in self.spec:
+            w = self.alpha.initial()
+            w.flag = True
+            Vertex.NEIGHBOR_CACHING = True
+            return w
         return SWorld(self.alpha.nv)
 
     def ops(self, w):
+        if "pumped" in self.spec:
+            out = []
+            n = self.alpha.n
+            for v in sorted({0, n}):
+                for K in range(1, len(LADDER_KEYS) + 1):
+                    out.append(("queryseq", v, K))
+            out += [op for op in self.alpha.ops(w) if op[0] not in ("addv", "ulf", "link_d") or op[0] == "ulf"]
+            out.append(("flag", not w.flag))
+            return out
         out = list(self.alpha.ops(w))
         for i in range(len(w.v)):
             out.append(("warm", i))
@@ -92,6 +118,13 @@ class Sys:
             for (d, u, f) in self.keys:
                 try:
                     helpers.neighbors(v, DIRS[d], UNKS[u], NB_FILTERS[f])
+                except Exception:  # noqa: BLE001
+                    pass
+            return ("ret", None)
+        if k == "queryseq":
+            for (d, u, f) in LADDER_KEYS[:op[2]]:
+                try:
+                    helpers.neighbors(w.v[op[1]], DIRS[d], UNKS[u], NB_FILTERS[f])
                 except Exception:  # noqa: BLE001
                     pass
             return ("ret", None)
@@ -160,7 +193,7 @@ class Sys:
 
     def nontrivial(self, pre, op, post, obs):
         # a mutation while some memo holds an entry
-        return op[0] not in ("warm", "query", "flag", "pickle_rt") and any(memo_is_warm(v) for v in pre.v)
+        return op[0] not in ("warm", "query", "queryseq", "flag", "pickle_rt") and any(memo_is_warm(v) for v in pre.v)
 
 
 def fingerprint(pre, op, diff):
@@ -291,6 +324,26 @@ def run(tier, seed, log):
                          "max_depth": res.depth, "fixpoint": res.exhaustive, "cap_hit": res.cap,
                          "wall_s": round(res.wall, 1)})
         samples += [{"pool": spec["alpha"], "history": h} for h in res.sample_histories[-3:]]
+    pump = PUMPED[tier]
+    pstates = ptrans = 0
+    for n in pump["ns"]:
+        spec = {"pumped": n, "keys": "ladder"}
+        res = engine_h.explore(Sys(spec), seed=seed, max_depth=pump["depth"])
+        for fp, (cnt, rec) in res.viols.items():
+            rec = dict(rec)
+            rec["pool"] = spec
+            rep.add("pumped|" + fp, rec, cnt)
+        pstates += res.states
+        ptrans += res.transitions
+        tot["states"] += res.states
+        tot["transitions"] += res.transitions
+        tot["validated"] += res.validated
+        tot["nontrivial"] += res.nontrivial
+    log(f"[{PROP}] pumped stars n={pump['ns']} depth<={pump['depth']}: states={pstates} transitions={ptrans}")
+    pools_ev.append({"pool": "pumped stars, caching on (hub with n links; ops: ask the first K of 12 keys at the "
+                             "hub / last spoke, focused mutators, flag toggle; every history of <= depth ops)",
+                     "hub_degrees": pump["ns"], "depth": pump["depth"], "states": pstates,
+                     "transitions": ptrans, "fixpoint": False})
     rep.coverage = {
         "states": tot["states"], "transitions": tot["transitions"],
         "traces_validated_against_impl": tot["validated"],
